@@ -54,30 +54,55 @@ class Condition(abc.ABC):
     def _qasm_(self, args: cirq.QasmArgs, **kwargs) -> str | None:
         return self.qasm
 
-    def _with_measurement_key_mapping_(self, key_map: Mapping[str, str]) -> cirq.Condition:
+    def _replace_keys(
+        self, replacements: Mapping[cirq.MeasurementKey, cirq.MeasurementKey]
+    ) -> cirq.Condition:
+        """Replaces all the given keys at once.
+
+        Replacing them one after another is wrong when a replacement is itself a key of the
+        condition (e.g. swapping two keys), so every key first becomes a unique placeholder.
+        """
+        replacements = {k: v for k, v in replacements.items() if k != v}
+        if len(replacements) < 2:
+            condition = self
+            for k, v in replacements.items():
+                condition = condition.replace_key(k, v)
+            return condition
+        taken = {str(k) for k in self.keys} | {str(v) for v in replacements.values()}
+        placeholders = {}
+        for i, k in enumerate(replacements):
+            name = f'_cirq_placeholder_key_{i}'
+            while name in taken:
+                name += '_'
+            taken.add(name)
+            placeholders[k] = measurement_key.MeasurementKey(name)
         condition = self
-        for k in self.keys:
-            condition = condition.replace_key(k, mkp.with_measurement_key_mapping(k, key_map))
+        for k, placeholder in placeholders.items():
+            condition = condition.replace_key(k, placeholder)
+        for k, placeholder in placeholders.items():
+            condition = condition.replace_key(placeholder, replacements[k])
         return condition
 
+    def _with_measurement_key_mapping_(self, key_map: Mapping[str, str]) -> cirq.Condition:
+        return self._replace_keys(
+            {k: mkp.with_measurement_key_mapping(k, key_map) for k in self.keys}
+        )
+
     def _with_key_path_prefix_(self, path: tuple[str, ...]) -> cirq.Condition:
-        condition = self
-        for k in self.keys:
-            condition = condition.replace_key(k, mkp.with_key_path_prefix(k, path))
-        return condition
+        return self._replace_keys({k: mkp.with_key_path_prefix(k, path) for k in self.keys})
 
     def _with_rescoped_keys_(
         self, path: tuple[str, ...], bindable_keys: frozenset[cirq.MeasurementKey]
     ) -> cirq.Condition:
-        condition = self
+        replacements = {}
         for key in self.keys:
             for i in range(len(path) + 1):
                 back_path = path[: len(path) - i]
                 new_key = key.with_key_path_prefix(*back_path)
                 if new_key in bindable_keys:
-                    condition = condition.replace_key(key, new_key)
+                    replacements[key] = new_key
                     break
-        return condition
+        return self._replace_keys(replacements)
 
 
 @dataclasses.dataclass(frozen=True)
